@@ -13,9 +13,18 @@ fn run_case(case: &Value) -> Value {
         // {"op":"send","ch":u32,"cmd":u8,"payload":hex}
         "send" => {
             let ch = case["ch"].as_u64().unwrap() as u32;
-            let cmd = match Command::try_from(case["cmd"].as_u64().unwrap() as u8) {
-                Ok(c) => c,
-                Err(()) => return json!({"badcmd": true}),
+            // the harness names the enum variants itself: the sender side must not depend on the receiver's byte table
+            let cmd = match case["cmd"].as_u64().unwrap() as u8 {
+                0x03 => Command::Msg,
+                0x10 => Command::Cbor,
+                0x06 => Command::Init,
+                0x01 => Command::Ping,
+                0x11 => Command::Cancel,
+                0x3F => Command::Err,
+                0x3B => Command::KeepAlive,
+                0x08 => Command::Wink,
+                0x04 => Command::Lock,
+                _ => return json!({"badcmd": true}),
             };
             let payload = get_hex(case, "payload");
             match Message::new(ch, cmd, &payload) {
